@@ -88,6 +88,7 @@ def gen_case(rng, depth=3, hist=False, ids=None, max_ops=40, **genkw):
             imm_other[0] = True
     case = {
         "witness": (rng.choice([True, "live"]) if rng.random() < 0.5 else False) if hist else False,
+        "witness_late": rng.random() < 0.5,
         "imm_other": imm_other,
         "prog": prog,
         "text": text,
@@ -162,6 +163,10 @@ def apply_op(run, op):
     o = op["op"]
     if o in ("wstart", "wfinish"):
         return apply_witness_op(run, op)
+    if o == "revar":
+        rec = run.reregister_access_function()
+        rec["ret"] = None  # the API documents no return value
+        return rec
     if o == "reg":
         return run.register(op["kind"], op["fn"])
     if o == "attach":
@@ -218,6 +223,13 @@ def run_impl(case, scratch=None):
                    mutate=case.get("mutate", False), as_file=as_file,
                    imm_other=(lambda k: case["imm_other"][k % len(case["imm_other"])]) if case.get("imm_other") else None,
                    imm_sf=(lambda k: case["imm_sf"][k % len(case["imm_sf"])]) if case.get("imm_sf") else None)
+    if case.get("witness") and case.get("witness_late"):
+        # yet another scheduler, constructed AFTER the one under test, with an execution engine of its own
+        late = impl.Run(case["text"], ids=case["ids"], answers=lambda name, ctx: TERMINATOR if name != "p" else TERMINATOR_P)
+        if late.s is not None:
+            for k in ("ts", "ss", "sf", "tf"):
+                late.register(k, 0)
+        run.late_witness = late
     impl.SHARED_TARGET[0] = run
     run.witness = witness
     res = {"valid": run.valid, "ctor_exc": run.ctor_exc, "ctor_out": run.ctor_out[:500]}
@@ -277,6 +289,8 @@ def run_impl(case, scratch=None):
                     rec = do({"op": "detach", "o": o})
                 else:
                     rec = do({"op": "attach", "o": o})
+            elif hist and rng.random() < 0.04:
+                rec = do({"op": "revar"})  # the application exchanges its variable access function
             elif hist and rng.random() < 0.05:
                 kind, fn = rng.choice(["ts", "ss", "sf", "tf"]), rng.randint(0, 2)
                 if imm_any and kind == "ss":
@@ -299,6 +313,13 @@ def run_impl(case, scratch=None):
         case["answers"] = run.answers
         case["terminator"] = TERMINATOR
     res["calls"] = run.calls
+    late = getattr(run, "late_witness", None)
+    if late is not None and late.s is not None:
+        got = [e[:6] for c in late.calls[4:] for e in c["out"]] + [e[:6] for e in late.prelude] + (["its execution engine was asked for %d values" % len(late.answers)] if late.answers else [])
+        if got:
+            rec = {"op": {"op": "witness"}, "out": [], "ret": None, "exc": None, "stdout": "", "witness_events": got[:5]}
+            rec.update(run.snapshot())
+            run.calls.append(rec)
     if witness is not None and witness.s is not None:
         got = [e[:6] for c in witness.calls[9:] for e in c["out"]] + [e[:6] for e in witness.prelude]
         if case.get("witness") == "live":
@@ -380,7 +401,8 @@ def canon_impl_calls(res):
         out.append({"op": c["op"], "ret": c["ret"], "out": evs, "running": c.get("running"),
                     "awaited": aw_ids, "start_awaited": start_awaited, "other_awaited": other_awaited,
                     "exc": c.get("exc"), "final_marking": c.get("final_marking"), "marked": c.get("marked"),
-                    "not_running_in": c.get("not_running_in") or [], "witness_events": c.get("witness_events")})
+                    "not_running_in": c.get("not_running_in") or [], "witness_events": c.get("witness_events"),
+                    "stale_var": c.get("stale_var")})
     return out
 
 
